@@ -451,6 +451,19 @@ def pre_fn_signature(item):
     return gen, params, (("self." if recv else "Self::"), turbofish, ", ".join(names))
 
 
+def _loop_kinds(item):
+    """sequence of loop keywords of a fn item (loop annotations are keyed by ordinal: if this sequence changes
+    against the baseline, the annotations no longer apply - handled like lost proof hints)"""
+    if item.kind != "fn" or getattr(item, "body_open", None) is None:
+        return []
+    try:
+        fp = extract.FnParts(item)
+        s = item.src
+        return [s.tt(s.sig[k]) for (k, _) in fp.loops()]
+    except Exception:
+        return []
+
+
 def read_template(unit):
     with open(os.path.join(VERIF, "units", unit + ".rs.in")) as f:
         ttext = f.read()
@@ -661,7 +674,7 @@ def generate(unit, probe=False, repo=None, drop_hints=()):
                        else item.parent.name if item.parent is not None else None),
             "src_line": item.line(), "sha256": extract.sha(raw),
             "out_lines": [start, line - 1], "has_requires": has_req, "contract": bool(b.clauses.strip()),
-            "drops": drops, "finding": b.finding,
+            "drops": drops, "finding": b.finding, "loops": _loop_kinds(item),
             "fallback": (f"{b.alt[0]} {b.alt[1]}" if drops and drops[0].startswith("extract-or:") else None),
         }
         if opts["probe"]:
